@@ -237,7 +237,15 @@ def c04_r3(ctx):
     # MpWriter/SerialMpWriter constructors go through SegmentWriter.__init__ (and so take the lock)
     for cname in ("multiproc.MpWriter", "multiproc.SerialMpWriter"):
         ini = prog.method(cname, "__init__", inherited=False)
-        cs = [c for c in norm.calls_in(ini.node) if norm.canon(c.func) == "SegmentWriter.__init__"]
+        cal = calls_of(prog)
+        cs = []
+        for c in norm.calls_in(ini.node):
+            if norm.call_name(c) != "__init__":
+                continue
+            res = cal.resolve(ini, c, prog.cls(cname))
+            tg = [t for t in (res.targets if hasattr(res, "targets") else [])]
+            if norm.canon(c.func) == "SegmentWriter.__init__" or any(getattr(t, "qualname", "").endswith("writing.SegmentWriter.__init__") for t in tg):
+                cs.append(c)
         ok = len(cs) == 1 and not any(k.arg == "_lk" for k in cs[0].keywords)
         ctx.ob(ini, ok, "parent multi-process writer initialises through SegmentWriter.__init__ with locking on")
 
